@@ -7,7 +7,7 @@ res=json.load(open(RES)) if os.path.exists(RES) else {}
 items=[]
 for a in sys.argv[1:]:
     pid,v=a.split('-')
-    if os.path.exists(f'/tmp/mut/{pid}/DELIVER/{v}/patch.diff'):
+    if os.path.exists(f'{ts.MUT_BASE}/{pid}/DELIVER/{v}/patch.diff'):
         items.append((pid,v))
 # phase 1: confirm (parallel over different worktrees; a and b of one worktree sequentially)
 by={}
